@@ -403,6 +403,15 @@ def _c18_runs(tier):
         for i in range(1 if q else 4):
             r.append(dict(h='mc_numeric', label='numeric-%s-long-shard%d' % (sc, i),
                           args=['--mode', 'long', '--scorer', sc, '--chains', '1' if q else '4', '--shard', '%d/%d' % (i, 1 if q else 4)]))
+    # only the senones the search asks for (the default), also with down-sampled Gaussian selection
+    for cfg in (0, 7):
+        for mode in ('stream', 'batch'):
+            r.append(dict(h='mc_numeric', label='numeric-ptm-cfg%d-%s-activeonly' % (cfg, mode),
+                          args=['--mode', mode, '--cfg', str(cfg), '--len', '2' if q else '3', '--compallsen', '0', '--shard', '0/1']))
+    for sc in ('semi', 'ms', 'mixw'):
+        r.append(dict(h='mc_numeric', label='numeric-%s-activeonly' % sc, args=['--mode', 'stream', '--len', '1' if q else '2', '--scorer', sc, '--compallsen', '0', '--shard', '0/1']))
+    # the search driven with the worst scores a scorer can deliver, long enough for path scores to reach their floor
+    r.append(dict(h='mc_numeric', label='numeric-worst-scores-long', args=['--mode', 'long', '--inject', 'worst', '--frames', '20000' if q else '70000', '--chains', '1', '--shard', '0/1']))
     chains = [(0, 3 if q else 16)] + ([(1, 1), (4, 1)] if q else [(1, 4), (3, 4), (4, 4), (7, 4), (11, 4)])
     for cfg, nl in chains:
         for i in range(nl):
@@ -578,7 +587,8 @@ CHECKS = {
              '+ dither, no CMN, legacy/HTK transforms, filterbank shape, warping, down-sampled scoring; length 2 / 3 for the non-default ones); '
              'plus 18000-frame (3 minute) chains of each type and of alternating pairs. Real front '
              'end, real scorer computing all senones, loop grammar; the PTM scorer on the bundled model, and the semi-continuous, '
-             'general multi-stream and PTM-from-mixture-weights scorers on synthetic parameter files written by the harness. At EVERY scored frame: every feature component finite, every senone score '
+             'general multi-stream and PTM-from-mixture-weights scorers on synthetic parameter files written by the harness; all senones computed, and '
+             'only the active ones (the default) incl. down-sampled Gaussian selection; one chain with the worst possible scores injected (20000 / 70000 frames). At EVERY scored frame: every feature component finite, every senone score '
              'in [0,32767] with minimum 0; after the utterance: path and segment scores in (WORST_SCORE,0], normalisation state finite, its '
              'text export re-imports to bit-identical floats and re-exports to the same text. Library built with signed-overflow and '
              'float-cast-overflow traps. non-trivial = the utterance was scored to the end without a rejected call',
